@@ -222,6 +222,23 @@ Section Inv.
     freevar_nocontext_at g cur idx mc = Ok cds -> forall cd, In cd cds -> cand_inv cur cd.
   Proof. unfold freevar_nocontext_at. intros H cd Hin. grind_ok; grind_in; finish. Qed.
 
+  Lemma freevar_context_inv cur n cl crest : freevar_context g cur n = Some (cl, crest) -> v_ctrace cur = cl :: crest.
+  Proof.
+    unfold freevar_context. intros H.
+    destruct (v_trace cur); [discriminate|]. destruct (v_ctrace cur) as [|cl0 crest0]; [discriminate|].
+    destruct (node_of g cl0) as [cln|]; [|discriminate]. destruct (n_kind cln); try discriminate.
+    destruct csum; [|discriminate]. destruct (Pos.eqb _ _); [|discriminate]. injection H as <- <-. reflexivity.
+  Qed.
+
+  Lemma freevar_nocontext_inv s cur fr idx cds :
+    freevar_nocontext g ord s cur fr idx = Ok cds -> forall cd, In cd cds -> cand_inv cur cd.
+  Proof.
+    unfold freevar_nocontext. intros H cd Hin.
+    destruct (f_referring fr) eqn:Er; [discriminate|]. rewrite <- Er in H.
+    destruct (concat_res_map_inv _ _ _ H _ Hin) as (a & li & _ & Ha & Hi).
+    exact (freevar_nocontext_at_inv _ _ _ _ Ha _ Hi).
+  Qed.
+
   Lemma expand_freevar_inv s cur n fr idx cds :
     node_of g (v_node cur) = Some n ->
     expand_freevar g ord s cur n fr idx = Ok cds -> forall cd, In cd cds -> cand_inv cur cd.
@@ -229,14 +246,11 @@ Section Inv.
     unfold expand_freevar. intros Hn H cd Hin. apply bind_ok in H as (op & _ & H).
     destruct (match op with Some pn => negb (Pos.eqb (n_fn pn) (n_fn n)) | None => true end).
     - injection H as <-. grind_in; finish.
-    - destruct (v_ctrace cur) as [|cl crest] eqn:Ec.
-      + destruct (f_referring fr) eqn:Er; [discriminate|]. rewrite <- Er in H.
-        destruct (concat_res_map_inv _ _ _ H _ Hin) as (a & li & _ & Ha & Hi).
-        pose proof (freevar_nocontext_at_inv _ _ _ _ Ha _ Hi) as Hc.
-        exact Hc.
-      + grind_ok; grind_in.
+    - destruct (freevar_context g cur n) as [[cl crest]|] eqn:Ec.
+      + apply freevar_context_inv in Ec. grind_ok; grind_in.
         all: unfold cand_inv; simpl; repeat split; eauto with trav.
         all: left; rewrite Ec; exists [cl]; reflexivity.
+      + eapply freevar_nocontext_inv; eauto.
   Qed.
 
   Lemma expand_global_inv s cur n iswrite glob cds :
